@@ -39,6 +39,7 @@ MIN_REACH = {
     "resown_from_reloaded_crop": {"quick": 20, "thorough": 250},
     "crops_whose_function_was_assigned_through_the_crop": {"quick": 5, "thorough": 60},
     "farmer_crops_built_by_the_generic_constructor_with_shuffle": {"quick": 10, "thorough": 100},
+    "farmer_crops_grown_as_mpi_rank_0": {"quick": 10, "thorough": 150},
     "farmer_crops_reaped_without_sync": {"quick": 3, "thorough": 40},
     "farmer_crops_with_an_earlier_failed_result_write": {"quick": 10, "thorough": 100},
 }
@@ -328,7 +329,17 @@ def run_case(ctx, case):
                         ctx.count("farmer_crops_with_an_earlier_failed_result_write")
                     finally:
                         probe.write_ctl(ctl1)
-                c2.grow_missing()
+                if case["idx"] % 5 == 2:
+                    # the growing program is rank 0 of an MPI launch (mpiexec -n 1, an srun step): rank 0 is the rank that saves
+                    mpi_var_ = ["PMI_RANK", "OMPI_COMM_WORLD_RANK"][case["idx"] % 2]
+                    os.environ[mpi_var_] = "0"
+                    try:
+                        c2.grow_missing()
+                    finally:
+                        os.environ.pop(mpi_var_, None)
+                    ctx.count("farmer_crops_grown_as_mpi_rank_0")
+                else:
+                    c2.grow_missing()
                 c3 = xyzpy.Crop(name=name, parent_dir=tmp) if case["reload"] else crop
                 try:
                     if case["to_df"]:
